@@ -1,5 +1,7 @@
 import SparkxVerif.Core.Proto
+import SparkxVerif.Core.Num
 import SparkxVerif.Core.Centrality
+import SparkxVerif.Gen.Centrality
 
 /-! driver ops for C19 (multiplicities and edges travel as integers, the harness applies a strictly
 monotone map; `inf` is printed for a stored minimum `float("inf")`):
@@ -11,9 +13,15 @@ monotone map; `inf` is printed for a stored minimum `float("inf")`):
   `run <fix|wrap> <zero> <sample;…> <R;…> <queries;…>`    extraction + lookups for given rank boundaries
       -> `ok <mins> <maxs> <classes>`
   `clean <edges;…>`  -> `ok <cleaned edges>`
+  `gpipe <zero> <sample;…> <lo> <hi> <edges;…> <queries;…>`
+      the same pipeline through the functions REGENERATED from the current source (`Gen/Centrality.lean`, tie T):
+      `genBuild`, `genLookup`, and the cut indices through `genRank` evaluated at `Float` (an edge travels as the
+      bit pattern of its non-negative double, so the driver recovers the double itself; `int()` = truncation);
+      no rank table is supplied.  Same answer format as `pipe`.
+  `grun <zero> <sample;…> <R;…> <queries;…>`   `genBuild` (rank boundaries given, `rank = id`) + `genLookup`
 -/
 namespace SparkxVerif.Drv.C19
-open SparkxVerif.Proto SparkxVerif.Centrality
+open SparkxVerif.Proto SparkxVerif.Centrality SparkxVerif.Gen.Centrality
 
 def showBnd : Bnd Int → String
   | .inf => "inf"
@@ -45,7 +53,30 @@ def pair? (s : String) : Option (Int × Nat) :=
 def answer (C : Classes Int) (qs : List Int) : String :=
   s!"{showList (C.mins.map showBnd)} {showList (C.maxs.map toString)} {showList (qs.map (fun q => showCls (lookup C.mins q)))}"
 
+def ganswer (C : Classes Int) (qs : List Int) : String :=
+  s!"{showList (C.mins.map showBnd)} {showList (C.maxs.map toString)} {showList (qs.map (fun q => showCls (genLookup C.mins q)))}"
+
+/-- the double whose (non-negative) bit pattern is the key `k` -/
+def edgeOfKey (k : Int) : Float := Float.ofBits k.toNat.toUInt64
+
 def handle : List String → String
+  | ["grun", zero, sample, R, qs] =>
+    match zero.toInt?, intList? sample, natList? R, intList? qs with
+    | some z, some s, some R, some qs =>
+      match genBuild (fun r : Nat => r) z s R with
+      | .error e => showErr e
+      | .ok C => "ok " ++ ganswer C qs
+    | _, _, _, _ => "bad-op"
+  | ["gpipe", zero, sample, lo, hi, edges, qs] =>
+    match zero.toInt?, intList? sample, lo.toInt?, hi.toInt?, intList? edges, intList? qs with
+    | some z, some s, some lo, some hi, some es, some qs =>
+      if !(edgesInRange lo hi es) then showErr .value
+      else
+        let cl := cleanEdges es
+        match genBuild (fun k : Int => genRank floatToNat s.length (edgeOfKey k)) z s cl with
+        | .error e => showErr e
+        | .ok C => s!"ok {showList (cl.map toString)} " ++ ganswer C qs
+    | _, _, _, _, _, _ => "bad-op"
   | ["run", v, zero, sample, R, qs] =>
     match variant? v, zero.toInt?, intList? sample, natList? R, intList? qs with
     | some bld, some z, some s, some R, some qs =>
